@@ -247,6 +247,20 @@ class Target:
     note: str = ""
 
 
+def _isdict_guard(test: ast.expr) -> str | None:
+    """`isinstance(<name>, dict)` -> name"""
+    if isinstance(test, ast.Call) and isinstance(test.func, ast.Name) and test.func.id == "isinstance" and len(test.args) == 2 and isinstance(test.args[0], ast.Name) and isinstance(test.args[1], ast.Name) and test.args[1].id == "dict":
+        return test.args[0].id
+    return None
+
+
+def _not_isdict_guard(test: ast.expr) -> str | None:
+    """`not isinstance(<name>, dict)` -> name"""
+    if isinstance(test, ast.UnaryOp) and isinstance(test.op, ast.Not):
+        return _isdict_guard(test.operand)
+    return None
+
+
 TRANSPARENT_DECORATORS = {
     # generator-based context managers: the body runs at `with` entry / exit; treating the decorator as transparent
     # attributes everything the body can raise (and every effect it has) to the `with` item that calls it
@@ -1335,6 +1349,67 @@ class Interp:
             return any(self.expr_tainted(v, fr) for v in e.values)
         if isinstance(e, ast.IfExp):
             return self.expr_tainted(e.body, fr) or self.expr_tainted(e.orelse, fr)
+        if isinstance(e, ast.Call) and any(self.expr_tainted(a, fr) for a in list(e.args) + [k.value for k in e.keywords]):
+            return self._call_returns_taint(e, fr)
+        return False
+
+    def _call_returns_taint(self, e: ast.Call, fr: Frame) -> bool:
+        """A package function handed an untrusted value hands it back: some `return` of the callee yields a (part of a)
+        tainted parameter that no `isinstance(<name>, dict)` guard with an early exit has vetted on the way to it."""
+        key = ("_crt", id(e), fr.key() if hasattr(fr, "key") else id(fr))
+        memo = self.__dict__.setdefault("_crt_memo", {})
+        if key in memo:
+            return memo[key]
+        memo[key] = False  # recursion guard
+        try:
+            targets = self.resolve_call(e, fr)
+        except AnalysisError:
+            return False
+        res = False
+        for t in targets:
+            if t.kind != "repo" or t.frame is None or not t.frame.tainted:
+                continue
+            if isinstance(t.frame.func.node, ast.AsyncFunctionDef) or any(isinstance(n, (ast.Yield, ast.YieldFrom)) for n in ast.walk(t.frame.func.node)):
+                continue
+            if self._body_returns_taint(t.frame.func.node.body, t.frame, set()):
+                res = True
+                break
+        memo[key] = res
+        return res
+
+    def _body_returns_taint(self, body: list, cf: Frame, vetted: set) -> bool:
+        vetted = set(vetted)
+        for s in body:
+            if isinstance(s, ast.Return):
+                v = s.value
+                if v is not None and self.expr_tainted(v, cf) and not (isinstance(v, ast.Name) and v.id in vetted):
+                    return True
+                return False
+            if isinstance(s, ast.If):
+                g = _not_isdict_guard(s.test)
+                if g is not None and s.body and isinstance(s.body[-1], (ast.Return, ast.Raise)):
+                    if self._body_returns_taint(s.body, cf, vetted):
+                        return True
+                    if not s.orelse:
+                        vetted.add(g)
+                        continue
+                pos = _isdict_guard(s.test)
+                if self._body_returns_taint(s.body, cf, vetted | ({pos} if pos else set())) or self._body_returns_taint(s.orelse, cf, vetted):
+                    return True
+                continue
+            if isinstance(s, (ast.Assign, ast.AnnAssign, ast.AugAssign)):
+                for tg in s.targets if isinstance(s, ast.Assign) else [s.target]:
+                    for n in ast.walk(tg):
+                        if isinstance(n, ast.Name):
+                            vetted.discard(n.id)
+                continue
+            for fld in ("body", "orelse", "finalbody"):
+                sub = getattr(s, fld, None)
+                if isinstance(sub, list) and sub and isinstance(sub[0], ast.stmt) and self._body_returns_taint(sub, cf, vetted):
+                    return True
+            for h in getattr(s, "handlers", []) or []:
+                if self._body_returns_taint(h.body, cf, vetted):
+                    return True
         return False
 
     def implementations(self, f: FuncInfo) -> list[FuncInfo]:
